@@ -245,7 +245,7 @@ def make_requests(repo, ops, seed, nrandom):
     if "psv" in ops or "ps" in ops:
         strs = [rnd_string(rng) for _ in range(nrandom)]
         for i, s in enumerate(strs):
-            pad = s + bytes(rng.randrange(256) for _ in range(8)) + b"\x00" * 96
+            pad = s + bytes(rng.randrange(256) for _ in range(8)) + b'"' + b"\x00" * 96     # _parse_string has no length bound: a quote must follow
             if "psv" in ops:
                 reqs.append({"op": "psv", "fam": "avx2", "buf": pad, "a": [rng.choice([0, len(s), len(s) + 1, max(0, len(s) - 1), len(s) + 7]), 0, 0], "_s": s})
             if "ps" in ops and i % 2 == 0:
